@@ -84,8 +84,16 @@ PROPS = {
               "push_uci_list totality beyond the first token needs 'a legal move keeps both kings' (differential-only)"],
              "Lean 4 theorems over byte-level parser models with explicit trap results (loop invariant for parse_cells, case analysis "
              "for the SAN/UCI grammars, king existence from the validation theorems)", "§6 C12", 1.0),
-    "C13": P("exploration", "none yet", ["ChainInv preserved"],
-             "differential: random push/pop/outcome scripts vs Spec replay (start, accepted moves, outcome)", "§6 C13"),
+    "C13": P("proof", "ops_inv: after ANY sequence of pushes (moves, UCI values, UCI strings, UCI lists; legal or not), pops and outcome "
+             "operations the chain invariant holds (valid positions throughout, stack = a legal game from the unchanged start with the "
+             "undo records make returned, board = its replay, repetition table = hash counts of the game so far); chain_faithful / "
+             "chain_refines_rules (board = replay of the recorded moves, in the model and as Spec.replay); push_ok (an accepted push "
+             "appends exactly that move; start and outcome untouched); push_refused; pop_spec' (pop undoes exactly the latest accepted "
+             "push, restores the previous position exactly, clears the outcome, lowers the repetition count, cannot panic); "
+             "pushUciList_go (accepted prefix); beq_iff (equality = start, move list, outcome)",
+             ["SAN pushes (san::Move, San<S>): differential only until san_sound (C09) gives MakeLikeOk for them"],
+             "Lean 4 theorems by induction over operation sequences; differential on generated chain scripts ties the model to the code",
+             "§6 C13"),
     "C14": P("exploration", "none yet", ["repeat_count_eq", "chain_outcome_eq"],
              "differential vs Spec.chainOutcomes (relational) and Spec.passes; thresholds re-extracted", "§6 C14"),
     "C15": P("proof", "rook/bishop lookups exact for all 64 squares × all 2^64 occupancies (kernel-decided over every submask of the "
